@@ -930,7 +930,7 @@ func TestC37(t *testing.T) {
 	m.Assume("goroutine states reported by runtime.Stack are accurate; the duplex has no timers or netpoller, so a snapshot in which every goroutine is parked on a channel/mutex/cond is a stable state")
 	m.Assume("when the server grants the same address twice, which of the equal listeners a Close affects is not determined by the property; such groups are judged as a group (counted: equal_addr_*)")
 
-	total := m.N(960, 48000)
+	total := m.N(960, 9600)
 	m.Cases("scenario", total, func(i int64, r *rand.Rand) {
 		pl := genPlan(i, r)
 		m.Count("scenarios:"+pl.class, 1)
